@@ -43,6 +43,16 @@ def c13a(ctx, tu):
             ctx.ob("C13.a", f.qe + ("/" + f.rec["special"] if f.rec.get("special") else ""), ok,
                    pattern=short_loc(e.get("loc", "") or f.rec.get("loc", "")), unit=tu.name, inst=f.q,
                    detail="" if ok else why)
+        # ... nor hand its own slot to anything that could write it (std::swap / std::exchange with a temporary)
+        if cls == "trompeloeil::null_on_move" and f.rec.get("special") in ("copy_assign", "move_assign"):
+            slot = lib.peer_roles(tu).get("slot", SLOT)
+            uses = [e for b, e in f.events() if e["e"] in ("call", "ctor") and
+                    any(isinstance(t, list) and t[:1] == ["member"] and erase(t[1]) == slot and t[2] == ["this"]
+                        for k in ("args", "recv") for t in lib.subtrees(e.get(k)))]
+            n += 1
+            ctx.ob("C13.a", f.qe + "/" + f.rec["special"] + " (slot untouched)", not uses, pattern=f.pat, unit=tu.name, inst=f.q,
+                   detail="" if not uses else "assigning to a watched object must keep its own requirement: the %s operator "
+                   "passes its monitor slot to %s" % (f.rec["special"], qe(uses[0]) if uses[0]["e"] == "call" else "a constructor"))
         # copy / move constructors must not read the source's slot at all
         if cls == "trompeloeil::null_on_move" and f.rec.get("special") in ("copy_ctor", "move_ctor"):
             reads = [e for b, e in f.events() if e["e"] == "member" and erase(e["field"]) == lib.peer_roles(tu).get("slot", SLOT) and "param" in str(e.get("base"))]
